@@ -229,7 +229,7 @@ class RoundPool {
 public:
     ~RoundPool() {
         quit_.store(true);
-        gen_.fetch_add(1);
+        state_.store(((state_.load() >> 8) + 1) << 8);
         for (auto& t : threads_) { t.join(); }
     }
     void run(int n, uint64_t seed, const std::function<void(int)>& fn) {
@@ -240,10 +240,13 @@ public:
         g_progress.fetch_add(1, std::memory_order_relaxed);
         fn_ = &fn;
         seed_ = seed;
-        n_active_.store(n);
         arrived_.store(0);
         done_.store(0);
-        gen_.fetch_add(1, std::memory_order_release);
+        // generation and number of participants are published in ONE word: a worker that is not part of
+        // this round and wakes up late must never combine the generation of one round with the
+        // participant count (and the function) of the next one - it would run that function twice
+        uint64_t g = (state_.load(std::memory_order_relaxed) >> 8) + 1;
+        state_.store((g << 8) | static_cast<uint64_t>(n), std::memory_order_release);
         uint64_t spins = 0;
         while (done_.load(std::memory_order_acquire) < n) {
             if (++spins < 4000) {
@@ -260,16 +263,17 @@ private:
         uint64_t seen = 0;
         for (;;) {
             uint64_t spins = 0;
-            while (gen_.load(std::memory_order_acquire) == seen) {
+            uint64_t st = 0;
+            while (((st = state_.load(std::memory_order_acquire)) >> 8) == seen) {
                 if (++spins < 20000) {
                     _mm_pause();
                 } else {
                     std::this_thread::sleep_for(std::chrono::microseconds(50));
                 }
             }
-            seen = gen_.load(std::memory_order_acquire);
+            seen = st >> 8;
             if (quit_.load()) { return; }
-            int n = n_active_.load();
+            int n = static_cast<int>(st & 0xff);
             if (id >= n) { continue; }
             ctl::thread_begin(id, seed_ * 131 + id);
             arrived_.fetch_add(1);
@@ -287,8 +291,8 @@ private:
         }
     }
     std::vector<std::thread> threads_;
-    std::atomic<uint64_t> gen_{0};
-    std::atomic<int> n_active_{0}, arrived_{0}, done_{0};
+    std::atomic<uint64_t> state_{0}; // (generation << 8) | participants
+    std::atomic<int> arrived_{0}, done_{0};
     std::atomic<bool> quit_{false};
     const std::function<void(int)>* fn_{nullptr};
     uint64_t seed_{0};
